@@ -33,7 +33,14 @@ MODULE = "UtapModel.Props.C16"
 GEN = os.path.join(core.LEAN_DIR, "UtapModel", "Gen", "C16Grammar.lean")
 FIELDS = {"guard": "guard", "sync": "sync", "assign": "assign", "prob": "prob"}
 XMLKIND = {"guard": "guard", "sync": "synchronisation", "assign": "assignment", "prob": "probability"}
-FAULTS = ["undeclared", "dropped", "bracket", "stray", "typeerr", "comment"]
+FAULTS = ["undeclared", "dropped", "bracket", "stray", "typeerr", "comment", "rangetypo"]
+# Faults that stay inside the label's `kind ... ;` section of the XTA text.  Unbalanced brackets are left out: in the one-text format
+# bison recovers through `'(' error ')'` / `'[' error ']'` and by design skips to the next closing bracket, wherever it is.
+XTA_FAULTS = {"undeclared", "dropped", "rangetypo"}
+
+
+def balanced(t):
+    return t.count("(") == t.count(")") and t.count("[") == t.count("]")
 
 
 def build(variant="asan"):
@@ -138,6 +145,14 @@ def inject(r, text, kind, pos=None):
         toks.insert(q, "zc + ")
     elif kind == "comment":
         toks.insert(p, " /* ")
+    elif kind == "rangetypo":
+        # the range type of a quantifier binder is misspelled: `forall (k : idt) (...)` is then read as a quantifier over the
+        # instances of an (unknown) dynamic template -- a complete production, no syntax error
+        occ = list(re.finditer(r":\s*(int\s*\[[^\]]*\]|id_t)", text))
+        if not occ:
+            return None
+        mm = occ[(pos or 0) % len(occ)]
+        return text[:mm.start()] + ": " + r.choice(["idt", "nosuch_t", "Int"]) + text[mm.end():]
     new = "".join(toks)
     return new if new != text else None
 
@@ -236,7 +251,7 @@ def run(ctx):
     base_cases = []
     for si, m in enumerate(seeds):
         xml = G.to_xml(m)
-        base_cases += [("s%d.b" % si, "b", xml), ("s%d.p" % si, "p", xml)]
+        base_cases += [("s%d.b" % si, "b", xml), ("s%d.p" % si, "p", xml), ("s%d.t" % si, "t", G.to_xta(m))]
     base, crashes = _run(exe, base_cases)
     accepted = [si for si in range(len(seeds)) if base.get("s%d.p" % si, {}).get("rc") == "0" and not base["s%d.p" % si]["E"]
                 and not base["s%d.b" % si]["E"]]
@@ -262,6 +277,8 @@ def run(ctx):
                 cases.append((cid + ".b", "b", xml))
                 if k == "typeerr":
                     cases.append((cid + ".p", "p", xml))
+                if k in XTA_FAULTS and balanced(t2) and not re.search(r"[;{}]|/\*|//", t2) and base.get("s%d.t" % si, {}).get("rc") == "0" and not base["s%d.t" % si]["E"]:
+                    cases.append((cid + ".t", "t", G.to_xta(with_label(m, lab, t2))))
     # declaration blocks: truncation and token deletion inside declaration i
     dmeta = {}
     for si in accepted:
@@ -299,6 +316,7 @@ def run(ctx):
     n_cmp = 0
     dist = {}
     synt = sem = 0
+    n_xta, xta_disturbed = 0, []
     for cid, (si, lab, k, t2, xml) in meta.items():
         fb = res.get(cid + ".b")
         if not fb or not fb["done"]:
@@ -341,6 +359,18 @@ def run(ctx):
                 diagkey[cid] = extra[0][1].strip('"').split(":")[0]
         if bad:
             disturbed.append((cid, bad))
+        # the same fault in the textual (XTA) rendering: the label's own error production must confine it
+        ft = res.get(cid + ".t")
+        if ft and ft["done"] and not bad:
+            n_xta += 1
+            t0 = base["s%d.t" % si]
+            if k == "typeerr":
+                continue          # a type error is only found by the static analysis, which the as-built comparison does not run
+            for fk, fv in t0["F"].items():
+                if fk != key and ft["F"].get(fk) != fv:
+                    xta_disturbed.append((cid, "XTA rendering: field %s changed: %s -> %s" % (fk, fv[:200], str(ft["F"].get(fk))[:200])))
+                    break
+    cov["xta_label_fault_cases"] = n_xta
     cov["correspondence_cases"] = n_cmp
     cov["syntax_fault_cases"] = synt
     cov["semantic_fault_cases_compared_after_analysis"] = sem
@@ -376,7 +406,13 @@ def run(ctx):
         for cid, what in disturbed:
             tl = tres.get(cid, [])
             shape = unmatched_push(tl) if tl else None
-            k = "leak:frame:" + shape if shape else ("diag:%s:%s" % (meta[cid][1][3], diagkey[cid]) if cid in diagkey else
+            # an unmatched push after a syntax error in the label is the computed exception shape (an abandoned production); a frame
+            # left behind by a label that parsed without a syntax error is something else
+            si_, lab_, _, _, _ = meta[cid]
+            lpath = label_path(seeds[si_], lab_[0], lab_[1], lab_[2], lab_[3])
+            fb_ = res.get(cid + ".b") or {"E": []}
+            syn = any(p_ == lpath and "syntax_error" in msg_ for p_, msg_ in fb_["E"])
+            k = ("leak:frame:" if syn else "leak:frame-without-syntax-error:") + shape if shape else ("diag:%s:%s" % (meta[cid][1][3], diagkey[cid]) if cid in diagkey else
                                                      "disturbance:%s:%s" % (meta[cid][1][3], meta[cid][2]))
             by_shape.setdefault(k, []).append((cid, what))
     cov["correspondence_disagreements"] = len(disturbed)
@@ -388,6 +424,15 @@ def run(ctx):
                     {"entry": "parse_XML_buffer(buf, DocumentBuilder*, true)", "input_b64": base64.b64encode(xml.encode()).decode(),
                      "faulted_field": lab[4], "fault_kind": fk, "faulty_label_text": t2, "fault_free_label_text": get_label(seeds[si], lab),
                      "observed": what, "required": "everything outside %s identical to the fault-free document" % lab[4]})
+    xs = {}
+    for cid, what in xta_disturbed:
+        xs.setdefault("xta-disturbance:%s:%s" % (meta[cid][1][3], meta[cid][2]), []).append((cid, what))
+    for k, lst in sorted(xs.items()):
+        cid, what = min(lst, key=lambda x: len(meta[x[0]][3]))
+        si, lab, fk, t2, xml = meta[cid]
+        ctx.finding(k, "fault (%s) in label %s = %r of the XTA text disturbs the rest of the document: %s (%d cases of this shape)" % (fk, lab[4], t2, what, len(lst)),
+                    {"entry": "parse_XTA(text, Document*, true)", "input_b64": base64.b64encode(G.to_xta(with_label(seeds[si], lab, t2)).encode()).decode(),
+                     "faulted_field": lab[4], "fault_kind": fk, "faulty_label_text": t2, "observed": what})
     for cid, what in dbad[:1]:
         si, pre, di, how, t2, xml = dmeta[cid]
         ctx.finding("decl-prefix:%s" % how, "fault inside declaration %d of block %s (%r): %s" % (di, pre, t2, what),
